@@ -118,6 +118,10 @@ def run_case(case: dict) -> dict:
             res["status"] = "excluded"
             res["excluded_by"] = "crosstalk"
             return res
+        if "same-source-two-roles" in excl and c02.same_source_two_roles(stmts):
+            res["status"] = "excluded"
+            res["excluded_by"] = "same-source-two-roles"
+            return res
         if fam == "c02" and (c02.static_tags(stmts) | ({"same-source-two-roles"} if c02.same_source_two_roles(stmts) else set())) & excl:
             res["status"] = "excluded"
             res["excluded_by"] = "bundle-wiring"
